@@ -1,8 +1,8 @@
-//! Second-wave wire formats of properties C06 / C07: streams `wire2-<fmt>-emit` / `wire2-<fmt>-parse`
+//! Second-wave wire formats of properties C06 / C07, group `ndisc` (NDISC options, NDISC messages): streams `wire2-<fmt>-emit` / `wire2-<fmt>-parse`
 //! (formats: see FORMATS; one module `wire2/fmt_<x>.rs` each, same protocol as h_wire.rs).
 //!
-//!   h_wire2 gen <fmt>-emit|<fmt>-parse <seed> <n> <tier>   cases on stdout
-//!   h_wire2 run                                            cases on stdin -> observations
+//!   h_wire2_ndisc gen <fmt>-emit|<fmt>-parse <seed> <n> <tier>   cases on stdout
+//!   h_wire2_ndisc run                                            cases on stdin -> observations
 //!
 //! Case: `case <id> fmt=<fmt>` + ops + `end`.
 //!   emit  buf=<hex> <repr fields>     real `Repr::emit` into exactly that buffer (zero-, 0xff-, 0xa5- and
@@ -16,18 +16,12 @@ use svh::*;
 
 #[path = "wire/common.rs"]
 mod common;
-#[path = "wire2/fmt_igmp.rs"]
-mod fmt_igmp;
-#[path = "wire2/fmt_mld.rs"]
-mod fmt_mld;
-#[path = "wire2/fmt_v6ext.rs"]
-mod fmt_v6ext;
-#[path = "wire2/fmt_v6frag.rs"]
-mod fmt_v6frag;
+#[path = "wire2/fmt_ndiscopt.rs"]
+mod fmt_ndiscopt;
 
 use common::Format;
 
-const FORMATS: &[&Format] = &[&fmt_igmp::FORMAT, &fmt_v6frag::FORMAT, &fmt_v6ext::FORMAT, &fmt_mld::FORMAT];
+const FORMATS: &[&Format] = &[&fmt_ndiscopt::FORMAT];
 
 fn format(name: &str) -> &'static Format {
     FORMATS.iter().find(|f| f.name == name).unwrap_or_else(|| panic!("unknown format {}", name))
